@@ -35,6 +35,9 @@ def pid_exists(pid):
         return True
     try:
         os.kill(pid, 0)
+    except OverflowError:
+        # PID does not fit in a C pid_t: no such process can exist.
+        return False
     except ProcessLookupError:
         return False
     except PermissionError:
